@@ -540,8 +540,22 @@ func runGateSession(h *wsx.Harness, job gateJob) (res gateResult) {
 				}
 				switch {
 				case k < len(rejs) && k == len(rest):
-					mk(fmt.Sprintf("stalled reader: no rejection for %s sent while an earlier reply was still unread", rejs[k].sigClass()), "C12",
-						fmt.Sprintf("%s: %d invalid frame(s), but after draining the client holds only %d rejection(s): %v (handler output excluded)", where, len(rejs), len(rest), rawOf(rest)))
+					// Rejections are plain NOTICEs, so which frame went unanswered is only known when
+					// every later one did (at most the first reply arrived) or when the candidates
+					// are all of one class; otherwise the signature does not name a class.
+					sameClass := true
+					for _, f := range rejs[1:] {
+						sameClass = sameClass && f.sigClass() == rejs[len(rejs)-1].sigClass()
+					}
+					detail := fmt.Sprintf("%s: %d invalid frame(s), but after draining the client holds only %d rejection(s): %v (handler output excluded)", where, len(rejs), len(rest), rawOf(rest))
+					switch {
+					case len(rest) <= 1:
+						mk(fmt.Sprintf("stalled reader: no rejection for %s sent while an earlier reply was still unread", rejs[len(rest)].sigClass()), "C12", detail)
+					case sameClass:
+						mk(fmt.Sprintf("stalled reader: no rejection for %s sent while an earlier reply was still unread", rejs[len(rejs)-1].sigClass()), "C12", detail)
+					default:
+						mk("stalled reader: fewer rejections than invalid frames", "C12", detail)
+					}
 				case k == len(rejs) && k < len(rest):
 					mk("stalled reader: more frames than rejections due", "C12",
 						fmt.Sprintf("%s: %d invalid frame(s), the client got (besides the handler's output) %v", where, len(rejs), rawOf(rest)))
